@@ -19,18 +19,20 @@ LEAN_MODULES = ["DclabModel.Properties.C03"]
 RULE = ("seeded histories of 5..60 operations on a dict-backed dataset with 1..25 events and 2..5 "
         "scalar features (small integers so that ties with the bounds are frequent, NaN and +-inf "
         "anywhere; thorough: also dyadic floats): set/change a min or max key (reversed, equal, "
-        "+-inf, on absent features), remove keys (pop), create/modify (points, axes, inverted)/"
-        "add/remove polygon filters, toggle 'remove invalid events' and 'enable filters', set "
+        "+-inf, on absent features), remove keys (pop), create polygon filters, edit ONE of axes / "
+        "points / inverted of a registered polygon filter in place or re-assign all three, add/"
+        "remove polygon filters, toggle 'remove invalid events' and 'enable filters', set "
         "'limit events' in {0,1,2,n/2,n,n+3}, edit ds.filter.manual, reset_filter(), "
         "apply_filter() with and without force; about a third of the applies happen while a range is "
         "half-set (the apply raises) and the history continues, often by restoring the settings "
-        "applied last. After every apply the four arrays are compared "
+        "applied last; while a limit is active 30% of the steps change the qualifying events to a "
+        "different set of the same size (manual swap, shifted range on `index`). After every apply the four arrays are compared "
         "with the Lean model and ds.filter.all with (a) a stateless Python evaluation of "
         "ds.config['filtering'] and (b) a fresh dataset given the same settings. distinct = "
         "distinct histories with >= 2 successful applies and a range change/removal or polygon "
-        "modification between two of them. Thorough tier additionally enumerates all 11110 "
+        "modification between two of them. Thorough tier additionally enumerates all 16105 "
         "sequences of <= 4 macro operations (range set / changed+reversed / removed, polygon "
-        "added / modified+inverted / removed, invalid, limit, manual, reset; each followed by an "
+        "added / modified+inverted / axes swapped in place / removed, invalid, limit, manual, reset; each followed by an "
         "apply) on a fixed 4-event dataset.")
 TRUSTED_BASE = [
     "modelled, not verified: NumPy comparison semantics (<=, isnan, isinf) beyond the Val order, "
@@ -111,14 +113,49 @@ def gen_history(rng, thorough):
     ops = []
     keys = {}          # (feat, ismax) -> value token (generator's view, to steer validity)
     applied = {}       # the keys at the last apply that did not raise
-    polys = {}         # pid -> True
+    polys = {}         # pid -> [ax, ay, shape, inv]  (names of the axes)
     active = []
+    manual = [True] * n
+    limit = 0
+
+    def eqcard():
+        """change the qualifying events to a different set of (mostly) the same size"""
+        out = []
+        r2 = rng.random()
+        inc = [i for i in range(n) if manual[i]]
+        exc = [i for i in range(n) if not manual[i]]
+        if r2 < 0.45 and inc and exc:
+            i, j = rng.choice(inc), rng.choice(exc)
+            out += [("manual", i, 0), ("manual", j, 1)]
+            manual[i], manual[j] = False, True
+        elif r2 < 0.55 and inc:
+            i = rng.choice(inc)
+            out.append(("manual", i, 0))
+            manual[i] = False
+        else:
+            lo, hi = keys.get(("index", 0)), keys.get(("index", 1))
+            if lo is not None and hi is not None and "/" not in lo + hi and "inf" not in lo + hi \
+                    and "nan" not in lo + hi:
+                sh = rng.choice([-1, 1])
+                lo, hi = str(int(lo) + sh), str(int(hi) + sh)
+            else:
+                lo = rng.randint(1, max(n - 1, 1))
+                lo, hi = str(lo), str(lo + rng.randint(0, max(n // 2, 1)))
+            out += [("set", FID["index"], 0, lo), ("set", FID["index"], 1, hi)]
+            keys[("index", 0)], keys[("index", 1)] = lo, hi
+        return out
 
     def half_set():
         return [f for f in filterable if ((f, 0) in keys) != ((f, 1) in keys)]
 
     while len(ops) < nops:
         r = rng.random()
+        if limit > 0 and rng.random() < 0.3:
+            ops += eqcard()
+            if not half_set():
+                ops.append(("apply", []))
+                applied = dict(keys)
+            continue
         if r < 0.30:
             f = rng.choice(filterable if rng.random() < 0.85 else present)
             v = gen_bound(rng, thorough)
@@ -143,10 +180,27 @@ def gen_history(rng, thorough):
                 ops.append(("pop", FID[rng.choice(filterable)], rng.randint(0, 1)))
         elif r < 0.50:
             pid = rng.randint(0, 3)
-            ax, ay = rng.sample(present + ["index"], 2)
-            ops.append(("polyset", pid, FID[ax], FID[ay], rng.randrange(len(SHAPES)),
-                        int(rng.random() < 0.3)))
-            polys[pid] = True
+            if pid in polys and rng.random() < 0.7:
+                # edit ONE attribute of a registered polygon filter in place
+                cur = polys[pid]
+                r2 = rng.random()
+                if r2 < 0.45:
+                    if rng.random() < 0.4:
+                        cur[0], cur[1] = cur[1], cur[0]
+                    else:
+                        k = rng.randint(0, 1)
+                        cur[k] = rng.choice([f for f in present + ["index"] if f != cur[1 - k]])
+                    ops.append(("polyaxes", pid, FID[cur[0]], FID[cur[1]]))
+                elif r2 < 0.75:
+                    cur[2] = rng.randrange(len(SHAPES))
+                    ops.append(("polypoints", pid, cur[2]))
+                else:
+                    cur[3] = 1 - cur[3]
+                    ops.append(("polyinv", pid, cur[3]))
+            else:
+                ax, ay = rng.sample(present + ["index"], 2)
+                polys[pid] = [ax, ay, rng.randrange(len(SHAPES)), int(rng.random() < 0.3)]
+                ops.append(("polyset", pid, FID[ax], FID[ay], polys[pid][2], polys[pid][3]))
         elif r < 0.56:
             if polys:
                 pid = rng.choice(sorted(polys))
@@ -164,12 +218,17 @@ def gen_history(rng, thorough):
         elif r < 0.68:
             ops.append(("enable", int(rng.random() < 0.7)))
         elif r < 0.73:
-            ops.append(("limit", rng.choice([0, 0, 1, 2, n // 2, n, n + 3])))
+            limit = rng.choice([0, 0, 1, 2, n // 2, n // 2, max(n - 1, 0), n, n + 3])
+            ops.append(("limit", limit))
         elif r < 0.80:
-            ops.append(("manual", rng.randrange(n), int(rng.random() < 0.35)))
+            i, bnew = rng.randrange(n), rng.random() < 0.35
+            manual[i] = bnew
+            ops.append(("manual", i, int(bnew)))
         elif r < 0.83:
             ops.append(("reset",))
             active = []
+            manual = [True] * n
+            limit = 0
         else:
             hs = half_set()
             if hs and rng.random() < 0.7:
@@ -258,6 +317,14 @@ class Impl:
                     pf.axes = (FEATS[ax], FEATS[ay])
                     pf.points = pts
                     pf.inverted = bool(inv)
+            elif kind in ("polyaxes", "polypoints", "polyinv") and op[1] not in self.pf:
+                pass        # no such instance yet: nothing to edit (a later polyset creates it)
+            elif kind == "polyaxes":
+                self.pf[op[1]].axes = (FEATS[op[2]], FEATS[op[3]])
+            elif kind == "polypoints":
+                self.pf[op[1]].points = np.array(SHAPES[op[2]], dtype=np.float64)
+            elif kind == "polyinv":
+                self.pf[op[1]].inverted = bool(op[2])
             elif kind == "polyadd":
                 ds.polygon_filter_add(self.pf[op[1]])
             elif kind == "polyrm":
@@ -352,13 +419,22 @@ def run_impl(case, want_lines=True):
             lines.append(f"col {FID[feat]} " + " ".join(tok(x) for x in im.column(feat)))
     answers, specfail = [], []
     pip_sent = set()
+    content = {}          # pid -> [ax, ay, shape] currently registered
     for i, op in enumerate(case["ops"]):
         op = tuple(op)
-        if want_lines and op[0] == "polyset":
-            key = (op[4], op[2], op[3])
-            if key not in pip_sent:
+        if op[0] in ("polyset", "polyaxes", "polypoints") :
+            cur = content.get(op[1], [0, 0, 0])
+            if op[0] == "polyset":
+                cur = [op[2], op[3], op[4]]
+            elif op[0] == "polyaxes":
+                cur = [op[2], op[3], cur[2]]
+            else:
+                cur = [cur[0], cur[1], op[2]]
+            content[op[1]] = cur
+            key = (cur[2], cur[0], cur[1])
+            if want_lines and key not in pip_sent:
                 pip_sent.add(key)
-                lines.append(f"pip {op[4]} {op[2]} {op[3]} " + bits(im.pip_bits(op[4], op[2], op[3])))
+                lines.append(f"pip {key[0]} {key[1]} {key[2]} " + bits(im.pip_bits(*key)))
         ans = im.do(op, rec)
         answers.append(ans)
         if want_lines:
@@ -392,6 +468,16 @@ def run_impl(case, want_lines=True):
                 elif not np.array_equal(got, pre):
                     specfail.append((i, f"ds.filter.all = {bits(got)} but the current settings "
                                         f"specify {bits(pre)}"))
+                else:
+                    try:
+                        fresh = im.fresh_all()
+                    except Exception as e:  # noqa
+                        specfail.append((i, f"apply_filter succeeded, but a fresh dataset with the same "
+                                            f"settings raises {type(e).__name__}"))
+                        continue
+                    if not np.array_equal(got, fresh):
+                        specfail.append((i, f"ds.filter.all = {bits(got)} but a fresh dataset with "
+                                            f"the same settings gives {bits(fresh)}"))
             except Exception as e:  # noqa
                 specfail.append((i, f"reference evaluation impossible: {e!r}"[:160]))
     return answers, lines, slots, specfail, rec.bad
@@ -421,7 +507,8 @@ def nontrivial(case, answers):
     if len(applies) < 2:
         return False
     a, b = applies[0], applies[-1]
-    return any(o[0] in ("set", "pop", "polyset") for o in case["ops"][a + 1:b])
+    return any(o[0] in ("set", "pop", "polyset", "polyaxes", "polypoints", "polyinv", "manual")
+               for o in case["ops"][a + 1:b])
 
 
 def spec_fails(case):
@@ -487,7 +574,7 @@ def builtin_corpus():
 
 def exhaustive_cases(max_len=4):
     """thorough tier: every sequence of at most `max_len` macro operations (each followed by an
-    apply) over a 10-letter alphabet on a fixed 4-event dataset"""
+    apply) over an 11-letter alphabet on a fixed 4-event dataset"""
     import itertools
     a, d = FID["area_um"], FID["deform"]
     data = {"area_um": ["0", "1", "3", "nan"], "deform": ["3", "1", "0", "1"]}
@@ -497,6 +584,7 @@ def exhaustive_cases(max_len=4):
         [["pop", a, 0], ["pop", a, 1]],                    # removed
         [["polyset", 0, a, d, 0, 0], ["polyadd", 0]],      # polygon created and added
         [["polyset", 0, a, d, 1, 1]],                      # modified + inverted
+        [["polyaxes", 0, d, a]],                           # axes swapped in place
         [["polyrm", 0]],
         [["invalid", 1]],
         [["limit", 1]],
@@ -521,11 +609,12 @@ def run(ctx):
     if corpus.exists():
         for p in sorted(corpus.glob("*.json")):
             cases.append(json.loads(p.read_text()))
-    for _ in range(ctx.n(1200, 15000)):
+    for _ in range(ctx.n(1200, 10000)):
         cases.append(gen_history(ctx.rng, ctx.thorough))
     if ctx.thorough:
-        cases += exhaustive_cases(4)
-        ctx.stat("exhaustive_histories", 11110)
+        ex = exhaustive_cases(4)
+        cases += ex
+        ctx.stat("exhaustive_histories", len(ex))
     impl = [run_impl(c) for c in cases]
     model = None
     if ctx.lean_ok:
